@@ -32,8 +32,11 @@ def gen_case(r, idx):
                 env.append((name, "link-file", r.choice(ENV_VALUES)))
             elif k < 0.86:
                 env.append((name, "link-dir", None))
-            elif k < 0.93:
+            elif k < 0.90:
                 env.append((name, "dangling", None))
+            elif k < 0.93:
+                # a regular file whose size as reported by stat (0) is not the number of bytes it yields
+                env.append((name, "link-proc", None))
             else:
                 env.append((name, "file-bad-utf8", r.choice(BAD_UTF8)))
     if c["env_dir"] and idx % 100 == 99:
@@ -45,8 +48,8 @@ def gen_case(r, idx):
     t = dict(phase.TARGET_DEFAULT)
     t["CNB_TARGET_OS"] = r.choice(["linux", "windows", "Linux x", ""])
     t["CNB_TARGET_ARCH"] = r.choice(["amd64", "arm64", "riscv 64", "é"])
-    t["CNB_TARGET_DISTRO_NAME"] = r.choice(["ubuntu", "", "my distro", "日本"])
-    t["CNB_TARGET_DISTRO_VERSION"] = r.choice(["24.04", "", "v 1", "rolling"])
+    t["CNB_TARGET_DISTRO_NAME"] = r.choice(["ubuntu", "", "my distro", "日本", "'alpine'", '"quoted"', '"'])
+    t["CNB_TARGET_DISTRO_VERSION"] = r.choice(["24.04", "", "v 1", "rolling", '"24.04"', "''", " 24.04 ", "24.04\n"])
     if r.random() < 0.45:
         del t["CNB_TARGET_ARCH_VARIANT"]
     else:
@@ -103,6 +106,8 @@ def materialise(lay, c):
                 os.symlink(t, p)
             elif kind == "dangling":
                 os.symlink(b"/nonexistent/vp", p)
+            elif kind == "link-proc":
+                os.symlink(b"/proc/sys/kernel/ostype", p)
     with open(lay.plan, "w") as f:
         entries = []
         for name, md in c["plan"]:
@@ -248,6 +253,8 @@ def run_case(base, c, sh):
         for n, k, v in c["env"]:
             if k in ("file", "link-file"):
                 want_env[n] = v
+            elif k == "link-proc":
+                want_env[n] = open("/proc/sys/kernel/ostype", "rb").read()
         got_env = {bytes.fromhex(k): bytes.fromhex(v) for k, v in got["platform_env"]}
         if got_env != want_env:
             keys = sorted(k for k in set(got_env) | set(want_env) if got_env.get(k) != want_env.get(k))
